@@ -70,6 +70,7 @@ import Restful.Lemmas.MimeOWS
 import Restful.Lemmas.MimeClass
 import Restful.Lemmas.StateShape
 import Restful.Lemmas.TieMime
+import Restful.Lemmas.TieImpNegotiate
 namespace Restful
 namespace Props
 open Str Mime
@@ -513,3 +514,9 @@ end C05Example
 
 end Props
 end Restful
+
+-- the imperative functions this property's model rests on, tied to their statement-by-statement
+-- translation (tools/goimp, Gen/Imp.lean, regenerated on every run):
+-- also: Restful.TieImp.insert_mime
+-- also: Restful.TieImp.sorted_mimes
+-- also: Restful.TieImp.entity_writer
